@@ -54,19 +54,31 @@ Definition loc_writes (f : func) (l : floc) : list scalar :=
   | Some i => match i_op i with OAssign dst _ | OLoad dst _ => [dst] | _ => [] end
   | None => []
   end.
+(* scalars an intrinsic declares as written: never "assigned" for the executions of Exec/Sem.v (which
+   stop at an intrinsic) but part of the universe of scalars of the function *)
+Definition loc_declared (f : func) (l : floc) : list scalar :=
+  match loc_instruction f l with
+  | Some i => match i_op i with
+              | OIntrinsic intr => match intr_scalars_written intr with Some ws => ws | None => [] end
+              | _ => []
+              end
+  | None => []
+  end.
 
 Definition all_scalars (f : func) : sset :=
-  fold_left (fun acc l => fold_left (fun a s => ss_add s a) (loc_reads f l ++ loc_writes f l) acc) (locations f) [].
+  fold_left (fun acc l => fold_left (fun a s => ss_add s a) (loc_reads f l ++ loc_writes f l ++ loc_declared f l) acc)
+            (locations f) [].
 
 (* DA-in of every location: greatest solution of  in(l) = /\ over predecessors p of (in(p) + writes(p)),
-   in(entry location) = {} *)
+   in(entry location) = {} ; computed by iteration from the top element and then CHECKED to be a
+   post-fixpoint (da_post), so that no property of the iteration has to be trusted *)
 Definition da_map := list (floc * sset).
 Fixpoint da_get (m : da_map) (l : floc) : sset :=
   match m with [] => [] | (k, v) :: t => if floc_eqb k l then v else da_get t l end.
 Definition da_out (f : func) (m : da_map) (p : floc) : sset :=
   fold_left (fun a s => ss_add s a) (loc_writes f p) (da_get m p).
 Definition da_round (f : func) (entry : floc) (univ : sset) (m : da_map) : da_map :=
-  map (fun kv : floc * sset =>
+  List.map (fun kv : floc * sset =>
          let l := fst kv in
          if floc_eqb l entry then (l, [])
          else match backward f l with
@@ -89,14 +101,24 @@ Definition da_solution (f : func) : option da_map :=
       let univ := all_scalars f in
       let locs := locations f in
       Some (da_iter (Datatypes.S (length locs * Datatypes.S (length univ))) f entry univ
-                    (map (fun l => (l, if floc_eqb l entry then [] else univ)) locs))
+                    (List.map (fun l => (l, if floc_eqb l entry then [] else univ)) locs))
   end.
+
+(* in(entry) = {} and in(l) is below out(p) for every predecessor p of every other location *)
+Definition da_post (f : func) (entry : floc) (m : da_map) : bool :=
+  match da_get m entry with [] => true | _ => false end &&
+  forallb (fun l => if floc_eqb l entry then true
+                    else match backward f l with
+                         | Ok ps => forallb (fun p => ss_subset (da_get m l) (da_out f m p)) ps
+                         | _ => false
+                         end) (locations f).
 
 (* no scalar can be read before it is assigned *)
 Definition def_assigned (f : func) : bool :=
-  match da_solution f with
-  | None => false
-  | Some m => forallb (fun kv : floc * sset => ss_subset (loc_reads f (fst kv)) (snd kv)) m
+  match entry_loc f, da_solution f with
+  | Some entry, Some m =>
+      da_post f entry m && forallb (fun l => ss_subset (loc_reads f l) (da_get m l)) (locations f)
+  | _, _ => false
   end.
 
 (* ---------- executions ---------- *)
@@ -162,7 +184,8 @@ Definition c13_oracle (f : func) (sts : list sstate) (obs : res lmap) (probes : 
   end.
 
 Inductive case :=
-| K (f : func) (big : bool) (mem : list (Z * Z)) (envs : list senv) (obs : res lmap) (probes : list probe).
+| K (f : func) (big : bool) (mem : list (Z * Z)) (envs : list senv) (obs : res lmap) (probes : list probe)
+    (da : bool).     (* the harness' definite-assignment verdict (decides the kf: tag); tied to def_assigned *)
 
 Definition probe_tie (obs : res lmap) (p : probe) : bool :=
   match p, obs with
@@ -178,7 +201,7 @@ Definition probe_tie (obs : res lmap) (p : probe) : bool :=
 
 Definition ck (k : case) : bool * bool :=
   match k with
-  | K f big mem envs obs probes =>
-      (res_eqb lmap_eqb (constants_max CASE_MAX f) obs && forallb (probe_tie obs) probes,
+  | K f big mem envs obs probes da =>
+      (res_eqb lmap_eqb (constants_max CASE_MAX f) obs && forallb (probe_tie obs) probes && Bool.eqb (def_assigned f) da,
        c13_oracle f (List.map (fun en => mkst en (mkbmem big mem)) envs) obs probes)
   end.
